@@ -129,6 +129,9 @@ class Driver:
             self.settle()
         finally:
             asyncio.start_server = self._orig_start_server
+        # the timers the idle coordinator keeps armed (its heart-beat sleeps): any further timer makes behaviour depend on
+        # wall-clock time, which the model does not have
+        self.timers0 = self.armed_timers()
 
     # ---- task step logging -------------------------------------------------
     def label_of(self, task):
@@ -162,6 +165,22 @@ class Driver:
     def _exc_handler(self, loop, context):
         exc = context.get("exception")
         self.task_errors.append((("loop", None), repr(exc) if exc else context.get("message")))
+
+    # ---- time ------------------------------------------------------------------
+    def armed_timers(self):
+        return sum(1 for h in self.loop._scheduled if not h._cancelled)
+
+    def extra_timers(self):
+        return self.armed_timers() - getattr(self, "timers0", 0)
+
+    def advance_time(self, seconds):
+        """Virtual time: everything armed within `seconds` from now becomes due (and fires at the next loop iteration)."""
+        import time as _time
+        self._time_offset = getattr(self, "_time_offset", 0.0) + seconds
+        self.loop.time = lambda: _time.monotonic() + self._time_offset
+        for _ in range(3):
+            self.loop._run_once()
+        self.settle()
 
     # ---- stepping ----------------------------------------------------------
     def run_once(self):
